@@ -32,6 +32,7 @@ pub fn build_on(world: &World, g: &mut ModuleGraph, roots: &[String], o: &BuildO
   }
   let roots: Vec<ModuleSpecifier> = roots.iter().map(|r| world.spec_of(r)).collect();
   let exec = InlineExecutor;
+  let npm = crate::world::WorldNpmResolver::new(&world.npm);
   futures::executor::block_on(g.build(
     roots,
     vec![],
@@ -40,6 +41,7 @@ pub fn build_on(world: &World, g: &mut ModuleGraph, roots: &[String], o: &BuildO
       is_dynamic: o.is_dynamic,
       skip_dynamic_deps: o.skip_dynamic,
       executor: &exec,
+      npm_resolver: if world.npm.on { Some(&npm) } else { None },
       ..Default::default()
     },
   ));
@@ -56,10 +58,12 @@ pub fn reload(world: &World, g: &mut ModuleGraph, specs: &[String], o: &BuildOpt
   let loader = WorldLoader::new(world);
   let specs: Vec<ModuleSpecifier> = specs.iter().map(|r| world.spec_of(r)).collect();
   let exec = InlineExecutor;
+  let npm = crate::world::WorldNpmResolver::new(&world.npm);
   futures::executor::block_on(g.reload(
     specs,
     &loader,
-    BuildOptions { is_dynamic: o.is_dynamic, skip_dynamic_deps: o.skip_dynamic, executor: &exec, ..Default::default() },
+    BuildOptions { is_dynamic: o.is_dynamic, skip_dynamic_deps: o.skip_dynamic, executor: &exec,
+      npm_resolver: if world.npm.on { Some(&npm) } else { None }, ..Default::default() },
   ));
 }
 
